@@ -673,6 +673,13 @@ class Evaluator:
             self.trace.append(("construct " + (n.get("ct") or "?").replace("const ", ""), vals_, n))
             if len(vals_) == 1 and isinstance(vals_[0], tuple) and vals_[0][0] == "str":
                 return vals_[0]
+            if not vals_ and k == "CXXConstructExpr" and (n.get("ct") or "").replace("const ", "").strip() == "SimpleString":
+                return ("str", "")                                           # SimpleString(): the empty string
+            if len(vals_) == 2 and isinstance(vals_[1], int) and 0 <= vals_[1] < 100000 and (n.get("ct") or "").replace("const ", "").strip() == "SimpleString":
+                try:
+                    return ("str", self.cstring(vals_[0]) * vals_[1])       # SimpleString(text, repeat count)
+                except Unknown:
+                    pass
             if len(vals_) == 1 and isinstance(vals_[0], tuple) and vals_[0][0] == "ptr" and (n.get("ct") or "").replace("const ", "").strip() == "SimpleString":
                 return ("str", self.cstring(vals_[0]))      # SimpleString(const char*) copies the text up to the terminator
             raise Unknown(k)
